@@ -42,13 +42,75 @@ def main(argv):
         return chk.finish() or 1
     prog = facts.load(d)
     prog.facts_dir = d
+    prog.config = "A"
     chk.analysed["configs"].append("A: cargo check --workspace (tough with feature http)")
     try:
         mod.run(chk, prog)
-        if tier == "thorough" and hasattr(mod, "run_thorough"):
-            mod.run_thorough(chk, prog, a)
+        if tier == "thorough" and not a.repo:
+            thorough(chk, mod, prop, a)
     except Exception:
         traceback.print_exc()
         chk.fail("ENGINE", "checker", "exception", "the checker raised an exception (fails closed): %s"
                  % traceback.format_exc().splitlines()[-1], kind="engine-error")
     return chk.finish()
+
+
+CONFIG_B_PROPS = {"C01", "C02", "C03", "C04", "C05", "C06", "C07", "C08", "C09", "C14", "C15", "C16", "C19"}
+
+
+def thorough(chk, mod, prop, a):
+    """thorough tier = quick tier + (1) the same rules over configuration B (tough built with
+    --no-default-features, i.e. the #[cfg(not(feature = "http"))] code) and (2) self-validation of the
+    checker: every committed mutant / seeded change for this property is applied to a scratch copy of
+    the CURRENT /repo tree, which must still compile under the fact extractor and must be reported by
+    the rules.  (2) examines variant sources, it does not execute tough; its outcome is recorded in
+    the evidence (coverage.self_validation) and never turns into a VIOLATION of the property."""
+    import glob
+    import time
+    from . import mutate
+    # (1) configuration B
+    if prop in CONFIG_B_PROPS:
+        try:
+            d = build.facts_dir("B")
+            progb = facts.load(d)
+            progb.facts_dir = d
+            progb.config = "B"
+            sub = report.Check(prop, "thorough", chk.seed)
+            mod.run(sub, progb)
+            chk.analysed["configs"].append("B: cargo check -p tough --no-default-features (%d rule instances)" % len(sub.obligations))
+            seen = set(v["key"] for v in chk.violations)
+            for o in sub.obligations:
+                o = dict(o)
+                o["rule"] = o["rule"] + "@B"
+                chk.obligations.append(o)
+            for v in sub.violations:
+                if v["key"] not in seen:
+                    v = dict(v)
+                    v["message"] = "[configuration B: tough without the http feature] " + v["message"]
+                    chk.violations.append(v)
+        except build.BuildError as e:
+            chk.fail("BUILD", "tough --no-default-features", "cargo-check", "configuration B does not compile", kind="build-failed")
+    # (2) self-validation on mutants
+    pats = sorted(glob.glob(os.path.join(build.VERIF, "mutants", prop, "*.patch")))
+    limit = int(os.environ.get("VERIF_MUTANT_LIMIT", "0") or 0)
+    if chk.seed:
+        import random
+        random.Random(chk.seed).shuffle(pats)
+    if limit < 0:
+        pats = []
+    elif limit:
+        pats = pats[:limit]
+    results = []
+    t0 = time.time()
+    for p in pats:
+        st, out = mutate.run_on_patch(prop, p)
+        rules = sorted(set(l.split("rule=")[1].split(" ")[0] for l in out.splitlines() if " rule=" in l and "VIOLATION" in l.upper()))
+        results.append({"mutant": os.path.basename(p), "status": st, "rules": rules})
+        print("  self-validation %-60s %s %s" % (os.path.basename(p), st, ",".join(rules)))
+    missed = [r for r in results if r["status"] == "silent"]
+    chk.self_validation = {"mutants": len(results), "flagged": sum(1 for r in results if r["status"] == "flagged"),
+                           "silent": [r["mutant"] for r in missed],
+                           "not_applicable": [r["mutant"] for r in results if r["status"] in ("patch-failed", "build-failed")],
+                           "results": results, "wall_s": round(time.time() - t0, 1)}
+    for r in missed:
+        print("SELF-VALIDATION: mutant %s of %s was NOT reported by the rules (checker weakness, not a property violation)" % (r["mutant"], prop))
